@@ -79,3 +79,16 @@ package swagen30
 //@ ensures undeclared: implies(len(route.Security) > 0 && exists(i, 0, len(route.Security), !altDeclared(config.SecuritySchemes, route.Security[i])), result != nil)
 //@ loop 0 invariant 0 <= _n && _n <= len(routeSecurity) && len(securityRequirements) == _n && fresh(securityRequirements)
 //@ loop 0 invariant forall(i, 0, _n, altDocumented(securityRequirements[i], routeSecurity[i]) && altDeclared(config.SecuritySchemes, routeSecurity[i]))
+
+// ---- parameters and request bodies (C06) ----
+//@ func handleRouteParamDeprecation props C06,C14
+//@ requires specParam != nil && specParam.Value != nil
+//@ modifies specParam.Value.Deprecated
+//@ ensures specParam.Value.Deprecated == (old(specParam.Value.Deprecated) || routeParam.Deprecation.Deprecated)
+
+//@ func createRouteParam props C06,C14
+//@ modifies any(openapi3.Schema), any(SchemaRefMap), any(elems(schemaRefMap)), any(elems([]any))
+//@ ensures result != nil && fresh(result) && result.Value != nil && fresh(result.Value)
+//@ ensures result.Value.Name == param.NameInSchema && result.Value.In == strings.ToLower(string(param.PassedIn)) && result.Value.Description == param.Description
+//@ ensures result.Value.Required == swagtool.IsFieldRequired(param.Validator)
+//@ ensures result.Value.Deprecated == param.Deprecation.Deprecated
